@@ -432,6 +432,13 @@ type forkRec struct {
 	dir  string // forked wallet directory
 	syms *symSnap
 	boot bool // the commit happened inside a boot (catch-up) of a replay
+	// quiet: the follower had processed the node's tip when the operation containing this commit was
+	// over. A crash while the follower lags is still replayed, but the restarted wallet catches up
+	// past blocks the uninterrupted run has not seen yet; if the node reorganises those away, their
+	// transactions sit in the restarted wallet's pending set and never reached the other one. The
+	// CONFIRMED state must agree all the same; pending-derived observations are compared only for
+	// quiet crash points.
+	quiet bool
 }
 
 // recorder collects forks of one environment.
@@ -465,11 +472,25 @@ func (r *recorder) wrap(db mwdb.DB) mwdb.DB {
 func (r *recorder) opDone() {
 	if len(r.pending) > 0 {
 		s := snapSyms(r.e)
+		q := caughtUp(r.e)
 		for _, f := range r.pending {
 			f.syms = s
+			f.quiet = q
 		}
 		r.pending = nil
 	}
+}
+
+// pendingObs: observations derived from the pending (unconfirmed) bookkeeping
+func pendingObs(a []string) bool {
+	if a[0] == "rec" && len(a) > 1 {
+		return pendingObs(a[1:])
+	}
+	switch a[0] {
+	case "sbu", "pend", "hsbu", "shistp", "bhistp":
+		return true
+	}
+	return false
 }
 
 type crashExec struct {
@@ -619,6 +640,9 @@ func (x *crashExec) replay(f *forkRec, level, depth, mod int) string {
 			rec.inBoot = false
 			rec.opDone()
 		}
+		if !f.quiet && pendingObs(a) {
+			continue
+		}
 		if x.cmp[j] && out != x.outs[j] && busyWallets(r) {
 			settle(r)
 			out = persistOp(r, a)
@@ -641,6 +665,7 @@ func (x *crashExec) replay(f *forkRec, level, depth, mod int) string {
 			if f2.syms == nil {
 				f2.syms = f.syms
 			}
+			f2.quiet = f2.quiet && f.quiet
 			if d := x.replay(f2, level+1, depth, mod); d != "" {
 				return d
 			}
